@@ -85,7 +85,7 @@ def group_case(case):
                         vv = [int(v) for v in vals]
                     sel, total = ref_selected(vv, offset, initial, final)
                     N_out = N - 1 + int(initial) + int(final)
-                    for delta in (0, -1, 1):
+                    for delta in (0, -1, 1) if N_out >= 0 else (1, 2, 3):  # no output length is right for an empty input with both flags off
                         L = N_out + delta
                         if L < 0:
                             continue
